@@ -119,6 +119,43 @@ def option_toggle_specs(ctx):
     return specs
 
 
+def second_call_cases(ctx, rep):
+    """optimize() called a second time on the same object (continuing from the first solution): every target call of the second run and the
+    point it returns satisfy the constraint, too."""
+    from pybads import BADS
+    rng = ctx.sub_rng("c02second")
+    n = 0
+    for kind in ("ball", "halfspace", "ball") if ctx.quick else ("ball", "halfspace") * 5:
+        D = rng.choice([2, 2, 3])
+        opt = np.array([rng.uniform(0.8, 1.4) for _ in range(D)])
+        rad = rng.uniform(0.9, 1.3)
+        g = (lambda X: np.sum(np.atleast_2d(X) ** 2, axis=1) - rad ** 2) if kind == "ball" else (lambda X: np.sum(np.atleast_2d(X), axis=1) - rad)
+        noisy = rng.random() < 0.3
+        calls = []
+        def f(x):
+            calls.append(np.ravel(x).copy())
+            return float(np.sum((np.asarray(x) - opt) ** 2)) + (0.05 * np.random.randn() if noisy else 0.0)
+        opts = {"display": "off", "max_fun_evals": 45 if not noisy else 70, "random_seed": rng.randint(1, 99), "n_search": 32, "noise_final_samples": 2}
+        if noisy:
+            opts["uncertainty_handling"] = True
+        b = BADS(f, np.full(D, 0.1), np.full(D, -4.0), np.full(D, 6.0), np.full(D, -2.0), np.full(D, 3.0), non_box_cons=lambda X: g(X) > 0, options=opts)
+        case = {"kind": "second_call", "D": D, "cons": kind}
+        try:
+            for rnd in (1, 2):
+                n0 = len(calls)
+                r = b.optimize()
+                viol = [c for c in calls[n0:] if float(g(c)[0]) > 0]
+                if viol or float(g(np.ravel(r["x"]))[0]) > 0:
+                    rep.violation("infeasible_call" if viol else "infeasible_result", "bads.py:optimize (call #%d on the same object)" % rnd,
+                                  f"optimize() call #{rnd} on one object: {len(viol)} of its {len(calls) - n0} target calls violate the {kind} constraint"
+                                  + (f" (first at x={viol[0].tolist()})" if viol else "") + f"; returned x={np.ravel(r['x']).tolist()} (constraint value {float(g(np.ravel(r['x']))[0]):.3g})", case)
+                    break
+            n += 1
+        except Exception as ex:
+            rep.disagree("Pipe.run ~ second optimize() call", f"{type(ex).__name__}: {str(ex)[:80]}", case)
+    return n
+
+
 def small_table_specs(ctx):
     """Constrained runs (every noise mode) whose evaluation table (`cache_size`) is smaller than the initial design, so that it has to grow
     while the start point and the initial design are being evaluated; non-identity variable transform; final re-sampling on."""
@@ -137,6 +174,7 @@ def small_table_specs(ctx):
 def run(ctx):
     rep = Report()
     ncon, cstats = construction_cases(ctx, rep)
+    cstats["second_calls"] = second_call_cases(ctx, rep)
     runlevel.with_extra(ctx, "c02table", lambda: small_table_specs(ctx))
     runlevel.with_extra(ctx, "c02coarse", lambda: coarse_specs(ctx))
     runlevel.with_extra(ctx, "c02toggle", lambda: option_toggle_specs(ctx))
